@@ -34,7 +34,7 @@ _data = {}
 def table(year):
     if year not in _data:
         fn = 'wma-athlons-data.json' if year == 'athlon' else 'wma-data-%s.json' % year
-        with open(os.path.join(REPO, 'athlib', 'wma', fn)) as f:
+        with open(os.path.join(REPO, 'athlib', 'wma', fn), encoding='utf-8') as f:
             _data[year] = json.load(f)
     return _data[year]
 
